@@ -25,7 +25,7 @@ def run(ctx):
     if ctx.thorough:
         runs += [('corrbits', ['-seed', ctx.seed + i, '-n', 20000]) for i in (1, 2)]
     simple.run(ctx, go_cmds=['trace', 'corrbits'], lean_targets=['Smtb.Properties.C06'],
-               prop_file='Smtb/Properties/C06.lean', theorems=THEOREMS, trace_targets=t, gates=True,
+               prop_file='Smtb/Properties/C06.lean', theorems=THEOREMS, trace_targets=t, gates=True, kernel_family='Bits',
                corr_runs=runs, search_runs=[('corrbits', ['-seed', ctx.seed + 60, '-n', 30000, '-exhaustive'])],
                corr_name='bits', driver_args=['corr', 'bits'],
                what='bit gadgets (test engine over many primes; BN254 R1CS with forged NBits hint)', spec='specification side of the C06 theorems',
